@@ -495,7 +495,37 @@ func TestC12L2(t *testing.T) {
 				rotated := false
 				var desc []string
 				for k := 0; k < n; k++ {
-					switch rapid.SampledFrom([]string{"params", "params-rotate", "spend", "spend-too-much", "send-by-admin", "send-by-other", "remove-unknown", "send-by-authority", "send-by-authority", "withdraw-by-user", "deposit-by-executor"}).Draw(rt, "inner") {
+					switch rapid.SampledFrom([]string{"params", "params-rotate", "spend", "spend-too-much", "send-by-admin", "send-by-other", "remove-unknown", "send-by-authority", "send-by-authority", "withdraw-by-user", "deposit-by-executor", "oracle-by-authority", "deposit-by-authority", "nested-batch-by-stranger", "nested-batch-by-authority"}).Draw(rt, "inner") {
+					case "oracle-by-authority":
+						// signed by the module authority, as the batch demands - but the authority is not a bridge executor
+						inner = append(inner, opchildtypes.NewMsgUpdateOracle(authority, 5, []byte{1}))
+						allValid = false
+						if failPos < 0 {
+							failPos = k
+						}
+						desc = append(desc, "oracle-by-authority")
+					case "deposit-by-authority":
+						inner = append(inner, opchildtypes.NewMsgFinalizeTokenDeposit(authority, users[0].Str, users[5].Str, coinOf("l2/minted-by-admin", 1000), nextL1, 1, "uinit", nil))
+						allValid = false
+						if failPos < 0 {
+							failPos = k
+						}
+						desc = append(desc, "deposit-by-authority")
+					case "nested-batch-by-stranger":
+						// a batch inside the batch whose sender is neither the authority nor the admin
+						nb, _ := opchildtypes.NewMsgExecuteMessages(users[4].Str, []sdk.Msg{banktypes.NewMsgSend(sdk.MustAccAddressFromBech32(authority), users[5].Addr, sdk.NewCoins(coinOf("stake", 1)))})
+						inner = append(inner, nb)
+						allAuthority = false
+						desc = append(desc, "nested-batch-by-stranger")
+					case "nested-batch-by-authority":
+						// a batch inside the batch, sent by the authority - which is not the admin
+						nb, _ := opchildtypes.NewMsgExecuteMessages(authority, []sdk.Msg{banktypes.NewMsgSend(sdk.MustAccAddressFromBech32(authority), users[5].Addr, sdk.NewCoins(coinOf("stake", 1)))})
+						inner = append(inner, nb)
+						allValid = false
+						if failPos < 0 {
+							failPos = k
+						}
+						desc = append(desc, "nested-batch-by-authority")
 					case "withdraw-by-user":
 						// a message of this module whose signer is a user: the admin must not be able to act in their name
 						inner = append(inner, opchildtypes.NewMsgInitiateTokenWithdrawal(users[4].Str, users[5].Str, coinOf("stake", 1)))
